@@ -704,7 +704,8 @@ func (f *FnVC) specCall(env *SEnv, e *spec.Expr, want types.Type) (Val, error) {
 			if err != nil {
 				return Val{}, err
 			}
-			return Val{T: f.mapHas(env.cur, m.T, mt, f.mapKey(k)), Typ: boolT}, nil
+			// a nil map has no entries
+			return Val{T: and(not(eq(m.T, Term{"0", SRef})), f.mapHas(env.cur, m.T, mt, f.mapKey(k))), Typ: boolT}, nil
 		case "called":
 			s, ok := f.sites[args[0].Tok]
 			if !ok {
